@@ -59,6 +59,11 @@ def _ub_dict(ub):
     return json.loads(ub.json())
 
 
+# a long chain: patch indices cross from one to two digits (foo.p9.ih5 -> foo.p10.ih5); crash points are taken for the last patches only
+LONG_SEGS = [[["set", "a/x", 0]]] + [[["set", f"a/n{i}", i], ["setattr", "/", "k", i]] for i in range(1, 12)]
+LONG_CHECK_FROM = 9
+
+
 class Walk:
     """One patching history with crash points."""
 
@@ -83,6 +88,8 @@ class Walk:
         """Crash point after an API call."""
         R = self.R
         self.trace.append(label)
+        if getattr(self, "seg_i", 0) < getattr(self, "check_from", 0):
+            return  # long chain: the early patches only build the record (their crash points are the short histories' business)
         self.nb += 1
         writable = self.rec._has_writable
         # copy 1: nothing flushed
@@ -129,6 +136,11 @@ class Walk:
         for ck in classes or ([self.cls_key] if self.cls_key == "ih5" else ["mf", "ih5"]):
             cls = CLASSES[ck]
             d, _, err = LC.open_dump(cls, allf, "r")
+            if allf and ck == self.cls_key:
+                # the complete set is also what opening the record BY NAME assembles: it must be judged like the explicit list
+                dn, _, errn = LC.open_dump(cls, allf[0].parent / "foo", "r")
+                same = (err is None) == (errn is None) and (err is not None or dn == d)
+                R.check(same, f"{sig}:as-{ck}:by-name-differs", f"after crash at {label}: opening the record by name {'is refused: ' + str(errn) if errn else 'opens'}, the complete file set given explicitly {'is refused' if err else 'opens'}" + ("" if err or errn or dn == d else " with a different tree (by name some containers are not seen)"), case, ["ih5/record.py:IH5Record.find_files"])
             if err is not None:
                 self.stats["complete_refused"] += 1
                 R.check(True, "", "")
@@ -257,12 +269,17 @@ class Walk:
         self.written = [self.commit_dump]
 
     def run(self, upto=None):
-        segs = HISTORIES[self.hidx]
+        segs = HISTORIES[self.hidx] if self.hidx >= 0 else LONG_SEGS
+        self.check_from = 0 if self.hidx >= 0 else LONG_CHECK_FROM
         self.rec = self.cls(self.live / "foo", "x")
         try:
+            self.seg_i = 0
             self.boundary("create")
             for i, seg in enumerate(segs):
-                if i > 0:
+                self.seg_i = i
+                if i > 0 and i < self.check_from:
+                    self.rec.create_patch()
+                elif i > 0:
                     # detour: a patch that is started, written to and discarded
                     self.rec.create_patch()
                     self.boundary(f"create_patch:detour{i}")
@@ -283,7 +300,7 @@ class Walk:
                     self.boundary(f"data:{i}.{j}:{op[0]}")
                 old_block = self.newest_block()
                 self.rec.commit_patch()
-                if self.torn:
+                if self.torn and i >= self.check_from:
                     self.torn_commit(old_block, f"commit_patch:{i}", "commit")
                     self.torn_manifest(f"commit_patch:{i}")
                 self.after_commit(f"commit_patch:{i}")
@@ -408,10 +425,10 @@ def run(tier: str, seed: int) -> dict:
     t0 = time.time()
     stats = _new_stats()
     if tier == "quick":
-        plan = [("ih5", 1), ("mf", 1), ("ih5", 3), ("mf", 5), ("ih5", 6), ("mf", 8), ("mf", 0), ("ih5", 4)]
+        plan = [("ih5", 1), ("mf", 1), ("ih5", -1), ("ih5", 3), ("mf", 5), ("ih5", 6), ("mf", 8), ("mf", 0), ("ih5", 4)]
         budget, kills, every, mf_every = 40.0, 4, 8, 16
     else:
-        plan = [(c, h) for h in range(len(HISTORIES)) for c in ("ih5", "mf")]
+        plan = [(c, h) for h in [-1] + list(range(len(HISTORIES))) for c in ("ih5", "mf")]
         budget, kills, every, mf_every = 420.0, 60, 1, 1
     done, skipped = [], []
     for k, (cls_key, hidx) in enumerate(plan):
@@ -444,7 +461,7 @@ def run(tier: str, seed: int) -> dict:
     R.notes.append(f"SIGKILL runs: {stats['kills']} (acknowledged commits at kill time: {stats['kill_acks']}; after writer finished: {stats['kill_after_done']}); complete set refused {stats['kill_complete_refused']}, uncommitted {stats['kill_complete_uncommitted']}, committed {stats['kill_complete_committed']}")
     R.notes.append("observation outside the quantifier (not claimed): merge_files and create_stub overwrite a COMPLETE user block by a different one of similar length; a torn write there can produce a parseable mixed block (uuid fields of both). C11 speaks about patching (create/fill/commit) only.")
     return R.result(
-        rule="(A) case = (class, history, API-call boundary incl. a discarded detour patch per patch) x {raw copy, flushed copy}; (B) case = (class, history, commit or create_patch, prefix length k of the user-block write) "
+        rule="(A) history -1 is a chain of 12 containers with crash points in the patches with index 9, 10, 11; (A) case = (class, history, API-call boundary incl. a discarded detour patch per patch) x {raw copy, flushed copy}; (B) case = (class, history, commit or create_patch, prefix length k of the user-block write) "
         "and for IH5MFRecord (commit, prefix length of the manifest write | manifest absent); (C) case = (class, kill delay); distinct = distinct crash points / prefix lengths / kills",
         bound=f"walks: {done}; skipped for budget: {skipped}; user-block prefix lengths: every k in 0..len(write) for load, complete-set open at every {every}-th k and at every k where the load outcome changes; manifest prefixes every {mf_every}-th byte + absent; SIGKILL runs: {stats['kills']}",
         exhaustive=not skipped and every == 1 and mf_every == 1,
